@@ -572,6 +572,16 @@ func (ex *Exec) eval(fr *Frame, ins ssa.Value) Value {
 func (ex *Exec) concInt(v Value, what string) int {
 	t := v.(*Term)
 	if !t.conc {
+		// the path condition may determine the value uniquely (e.g. the length of a decimal rendering once its
+		// digit count has been fixed): take the model value and check that no other value is feasible
+		if ex.solver.check() == "sat" {
+			if vals, ok := ex.solver.getValues([]*Term{t}); ok {
+				c := bvConst(t.w, vals[0])
+				if !ex.feasible(tNot(tEq(t, c))) {
+					return int(c.sval())
+				}
+			}
+		}
 		panic(unsupported{"symbolic " + what})
 	}
 	return int(t.sval())
